@@ -10,7 +10,7 @@ import (
 
 // C12: poryswitch contributes exactly the selected case and nothing else.
 
-func c12Src(c *FileCase) string { return Canon(c.File) }
+func c12Src(c *FileCase) string { return CanonMaybeDense(c.File) }
 
 func hasDirectContinueInPS(f *File) bool {
 	found := false
